@@ -54,7 +54,7 @@ class Data2DPCK(Sized, BuildWriteable):
     def nBytes(self):
         nFrames, nCameras = self.data.shape
         return 2 * nCameras * nFrames + sum(
-            self.data[i, j].nbytes
+            VEC2F.btype.itemsize * len(self.data[i, j])
             for i in range(nFrames)
             for j in range(nCameras)
             if self.data[i, j] is not None
